@@ -682,8 +682,10 @@ func inlineClause(cl string) bool {
 //     neighbours (a definition line that continues a paragraph, a code span or a link title
 //     or a definition that runs over a line ending, a reference link defined elsewhere);
 //   - ld-html-block-not-recognised: the change lies in what goldmark reads as an HTML block
-//     whose first line has no complete opening tag for the scanner's tag stack (it starts with
-//     a closing tag, or is not a complete open tag);
+//     while no complete open tag is pending before the rewritten span (HTML blocks are
+//     delimited by lines, the scanner's HTML state by balanced tags);
+//   - ld-inline-html-inside-brackets: the change lies in inline raw HTML that begins while a
+//     `[` is open (the scanner looks for HTML only with an empty bracket stack);
 //   - ld-nested-link-syntax: one line with link syntax inside link syntax (`[[`, or `](`
 //     more than once): brackets inside a destination or a title, links in link text;
 //   - ld-code-in-container-block: the change lies in what goldmark reads as an indented or
@@ -701,71 +703,157 @@ func inlineClause(cl string) bool {
 //   - ld-character-reference-in-destination: the destination has a character reference, which
 //     the replacer does not resolve;
 //   - md-unescape-nbsp also shows as a destination with U+00A0 rewritten to a URL with %20.
-var findingDefs = []findingDef{
-	{id: "md-unescape-nbsp", minimal: "\u00a0", clause: "unescape-escape",
-		class: func(sh, cl, _ string) bool {
-			return cl == "unescape-escape" && sh == "\u00a0" || cl == "resolves-against-base" && strings.Contains(sh, "\u00a0")
-		}},
-	{id: "ld-escapable-set-incomplete", minimal: "[](\\\")", clause: "resolves-against-base",
-		class: func(sh, cl, _ string) bool { return cl == "resolves-against-base" && reEscapeOfOtherPunct.MatchString(sh) }},
-	{id: "ld-character-reference-in-destination", minimal: "[](a&#35;)", clause: "resolves-against-base",
-		class: func(sh, cl, _ string) bool { return cl == "resolves-against-base" && reCharRef.MatchString(sh) }},
-	{id: "ld-line-by-line-scanner", minimal: "a\n[a]:a", clause: "only-destinations-change",
-		class: func(sh, cl, detail string) bool {
-			if !inlineClause(cl) || catOf(detail) != "inline" || !strings.Contains(sh, "\n") {
-				return false
-			}
-			cls, _, err := evalDocs(strings.Split(sh, "\n"))
-			if err != nil {
-				return false
-			}
-			for _, c := range cls {
-				if c != "" {
+var findingDefs []findingDef
+
+func init() {
+	findingDefs = []findingDef{
+		{id: "md-unescape-nbsp", minimal: "\u00a0", clause: "unescape-escape",
+			class: func(sh, cl, _ string) bool {
+				return cl == "unescape-escape" && sh == "\u00a0" || cl == "resolves-against-base" && strings.Contains(sh, "\u00a0")
+			}},
+		{id: "ld-escapable-set-incomplete", minimal: "[](\\\")", clause: "resolves-against-base",
+			class: func(sh, cl, _ string) bool {
+				return cl == "resolves-against-base" && reEscapeOfOtherPunct.MatchString(sh)
+			}},
+		{id: "ld-character-reference-in-destination", minimal: "[](a&#35;)", clause: "resolves-against-base",
+			class: func(sh, cl, _ string) bool { return cl == "resolves-against-base" && reCharRef.MatchString(sh) }},
+		{id: "ld-line-by-line-scanner", minimal: "a\n[a]:a", clause: "only-destinations-change",
+			class: func(sh, cl, detail string) bool {
+				if !inlineClause(cl) || catOf(detail) != "inline" || !strings.Contains(sh, "\n") {
 					return false
 				}
-			}
-			return true
-		}},
-	{id: "ld-html-block-not-recognised", minimal: "<div [](a)", clause: "only-destinations-change",
-		class: func(sh, cl, detail string) bool {
-			first, _, _ := strings.Cut(sh, "\n")
-			first = strings.TrimLeft(first, " ")
-			return cl == "only-destinations-change" && catOf(detail) == "html-block" && strings.HasPrefix(first, "<") &&
-				(strings.HasPrefix(first, "</") || !reCompleteOpenTag.MatchString(first))
-		}},
-	{id: "ld-rewritten-url-unbalanced-paren", minimal: "[a]:(?)", clause: "only-destinations-change",
-		class: func(sh, cl, detail string) bool {
-			return inlineClause(cl) && catOf(detail) == "inline" && !strings.Contains(sh, "\n") && reParenThenQueryParen.MatchString(sh)
-		}},
-	{id: "ld-nested-link-syntax", minimal: "[[](<>\"](\")", clause: "only-destinations-change",
-		class: func(sh, cl, detail string) bool {
-			return inlineClause(cl) && catOf(detail) == "inline" && !strings.Contains(sh, "\n") &&
-				(strings.Count(sh, "](") >= 2 || strings.Contains(sh, "[["))
-		}},
-	{id: "ld-paren-title-with-paren", minimal: "[a]:a (()", clause: "only-destinations-change",
-		class: func(sh, cl, detail string) bool {
-			return inlineClause(cl) && catOf(detail) == "inline" && !strings.Contains(sh, "\n") && reParenInParenTitle.MatchString(sh)
-		}},
-	{id: "ld-code-in-container-block", minimal: "-     [](a)", clause: "only-destinations-change",
-		class: func(sh, cl, detail string) bool {
-			cat := catOf(detail)
-			top := look(sh).top
-			return cl == "only-destinations-change" && (cat == "indented" || cat == "fenced") && len(top) > 0 &&
-				(top[0] == "List" || top[0] == "Blockquote")
-		}},
-	{id: "ld-code-span-over-inline-html", minimal: "<span>`</span>[](`)", clause: "only-destinations-change",
-		class: func(sh, cl, detail string) bool {
-			v := look(sh)
-			return inlineClause(cl) && catOf(detail) == "inline" && !strings.Contains(sh, "\n") &&
-				v.codeSpans > 0 && strings.Contains(sh, "<")
-		}},
+				lines := strings.Split(sh, "\n")
+				cls, dets, err := evalDocs(lines)
+				if err != nil {
+					return false
+				}
+				for i, c := range cls {
+					// a line that fails on its own must do so for another recorded cause
+					if c != "" && classifyWith(nil, lines[i], c, dets[i]) == "" {
+						return false
+					}
+				}
+				return true
+			}},
+		{id: "ld-html-block-not-recognised", minimal: "<div [](a)", clause: "only-destinations-change",
+			class: func(sh, cl, detail string) bool {
+				// goldmark: the change lies in an HTML block. Scanner: at the first rewritten span its
+				// stack of complete open tags is empty (decided independently by openTagPending), so
+				// it takes the span for Markdown. CommonMark's HTML blocks are delimited by lines
+				// (start conditions 1-7, end at a blank line or at the line with the end condition),
+				// not by balanced tags.
+				if cl != "only-destinations-change" || catOf(detail) != "html-block" {
+					return false
+				}
+				at, ok := firstRewrite(sh)
+				return ok && !openTagPending(sh[:at])
+			}},
+		{id: "ld-inline-html-inside-brackets", minimal: "[<!--](a)-->", clause: "only-destinations-change",
+			class: func(sh, cl, detail string) bool {
+				// goldmark: the change lies in inline raw HTML (a comment, a tag). Scanner: it looks for
+				// HTML only while its bracket stack is empty; here a `[` is open before the `<`.
+				if cl != "only-destinations-change" || catOf(detail) != "raw-html" || strings.Contains(sh, "\n") {
+					return false
+				}
+				q, err := strconv.QuotedPrefix(strings.TrimPrefix(detail, "raw HTML "))
+				if err != nil {
+					return false
+				}
+				raw, _ := strconv.Unquote(q)
+				i := strings.Index(sh, raw)
+				return i > 0 && bracketDepth(sh[:i]) > 0
+			}},
+		{id: "ld-rewritten-url-unbalanced-paren", minimal: "[a]:(?)", clause: "only-destinations-change",
+			class: func(sh, cl, detail string) bool {
+				return inlineClause(cl) && catOf(detail) == "inline" && !strings.Contains(sh, "\n") && reParenThenQueryParen.MatchString(sh)
+			}},
+		{id: "ld-nested-link-syntax", minimal: "[[](<>\"](\")", clause: "only-destinations-change",
+			class: func(sh, cl, detail string) bool {
+				return inlineClause(cl) && catOf(detail) == "inline" && !strings.Contains(sh, "\n") &&
+					(strings.Count(sh, "](") >= 2 || strings.Contains(sh, "[["))
+			}},
+		{id: "ld-paren-title-with-paren", minimal: "[a]:a (()", clause: "only-destinations-change",
+			class: func(sh, cl, detail string) bool {
+				return inlineClause(cl) && catOf(detail) == "inline" && !strings.Contains(sh, "\n") && reParenInParenTitle.MatchString(sh)
+			}},
+		{id: "ld-code-in-container-block", minimal: "-     [](a)", clause: "only-destinations-change",
+			class: func(sh, cl, detail string) bool {
+				// goldmark: the change lies in a code block or in a reference definition inside a
+				// list item or block quote. Scanner: it knows no container blocks — indentation,
+				// fences and definitions are looked for at the start of the line only.
+				cat := catOf(detail)
+				top := look(sh).top
+				return cl == "only-destinations-change" && len(top) > 0 && (top[0] == "List" || top[0] == "Blockquote") &&
+					(cat == "indented" || cat == "fenced" || strings.HasPrefix(detail, "reference definition"))
+			}},
+		{id: "ld-code-span-over-inline-html", minimal: "<span>`</span>[](`)", clause: "only-destinations-change",
+			class: func(sh, cl, detail string) bool {
+				v := look(sh)
+				return inlineClause(cl) && catOf(detail) == "inline" && !strings.Contains(sh, "\n") &&
+					v.codeSpans > 0 && strings.Contains(sh, "<")
+			}},
+	}
 }
 
 // a backslash before one of the ASCII punctuation bytes that isMarkdownEscapable does not list
 var reEscapeOfOtherPunct = regexp.MustCompile("\\\\[\"$%',/:;?@^]")
 var reParenInParenTitle = regexp.MustCompile(`[ \t]\((?:[^()\\]|\\.)*\(`)
-// a complete open tag as CommonMark defines it, at the start of the line
-var reCompleteOpenTag = regexp.MustCompile("^<[A-Za-z][A-Za-z0-9-]*(\\s+[A-Za-z_:][A-Za-z0-9_.:-]*(\\s*=\\s*([^\\s\"'=<>`]+|'[^']*'|\"[^\"]*\"))?)*\\s*/?>")
+
+// firstRewrite asks the real scanner where its first replacement in doc starts.
+func firstRewrite(doc string) (int, bool) {
+	rs, err := runReal([]tcase{{Op: "replace", Src: hexs(doc), Base: baseURL, Dir: dirName}})
+	if err != nil || len(rs[0].Repls) == 0 {
+		return 0, false
+	}
+	at, err := strconv.Atoi(rs[0].Repls[0][0])
+	return at, err == nil && at <= len(doc)
+}
+
+var reAnyTag = regexp.MustCompile("</?[A-Za-z][A-Za-z0-9-]*(\\s+[A-Za-z_:][A-Za-z0-9_.:-]*(\\s*=\\s*([^\\s\"'=<>`]+|'[^']*'|\"[^\"]*\"))?)*\\s*/?>")
+var voidTags = map[string]bool{"area": true, "base": true, "br": true, "col": true, "embed": true, "hr": true, "img": true, "input": true, "link": true, "meta": true, "param": true, "source": true, "track": true, "wbr": true}
+
+// openTagPending: is a complete, non-void, not self-closed open tag still unclosed at the end
+// of prefix? (what a tag-stack scanner would call "inside HTML")
+func openTagPending(prefix string) bool {
+	var stack []string
+	for _, t := range reAnyTag.FindAllString(prefix, -1) {
+		name := strings.ToLower(strings.TrimLeft(t, "</"))
+		if i := strings.IndexAny(name, " \t\n/>"); i >= 0 {
+			name = name[:i]
+		}
+		switch {
+		case strings.HasPrefix(t, "</"):
+			for i := len(stack) - 1; i >= 0; i-- {
+				if stack[i] == name {
+					stack = stack[:i]
+					break
+				}
+			}
+		case strings.HasSuffix(t, "/>") || voidTags[name]:
+		default:
+			stack = append(stack, name)
+		}
+	}
+	return len(stack) > 0
+}
+
+// bracketDepth: unescaped `[` still open at the end of prefix
+func bracketDepth(prefix string) int {
+	d := 0
+	for i := 0; i < len(prefix); i++ {
+		switch prefix[i] {
+		case '\\':
+			i++
+		case '[':
+			d++
+		case ']':
+			if d > 0 {
+				d--
+			}
+		}
+	}
+	return d
+}
 
 // a destination with a `(` and, after a `?` or `#`, its `)`: the `)` lands in the query or
 // fragment of the rewritten URL, where net/url leaves it as it is
@@ -773,8 +861,17 @@ var reParenThenQueryParen = regexp.MustCompile(`\([^()\s]*[?#][^()\s]*\)`)
 var reCharRef = regexp.MustCompile(`&(#[0-9]+|#[xX][0-9a-fA-F]+|[A-Za-z][A-Za-z0-9]*);`)
 
 func classify(c *hx.Ctx, shrunk, clause, detail string) string {
-	for _, f := range findingDefs {
+	return classifyWith(c, shrunk, clause, detail)
+}
+
+// classifyWith: with c == nil the id of the matching class whether or not it is listed
+func classifyWith(c *hx.Ctx, shrunk, clause, detail string) string {
+	for i := range findingDefs {
+		f := &findingDefs[i]
 		if f.class(shrunk, clause, detail) {
+			if c == nil {
+				return f.id
+			}
 			return c.Known(f.id)
 		}
 	}
@@ -1266,4 +1363,3 @@ func shrinkRoundTrip(s string) string {
 		}
 	}
 }
-
